@@ -222,7 +222,12 @@ def probes(rec: Rec, tl, cuts, r, budget):
                     arg = cls([it]).df
                 return tl.append(arg, sort=sort)
             cat.append(("append", lambda do=do, rows=rows, sort=sort, form=form: rec.run(
-                "append", tl, do, {"add": rows, "sort": sort, "form": form})))
+                "append", tl, do, {"add": rows, "sort": sort, "form": form}, check_share=True)))
+    # appending nothing
+    for sort in (False, True):
+        cat.append(("append", lambda sort=sort: rec.run(
+            "append", tl, lambda: tl.append(cls([]), sort=sort), {"add": [], "sort": sort, "form": "empty"},
+            check_share=True)))
     cat.append(("deepcopy", lambda: rec.run("deepcopy", tl, tl.deepcopy, check_share=True)))
     if n:
         to = r.choice(cuts)
